@@ -91,6 +91,7 @@ PROPS = {
             {'engine': 'verus', 'name': 'event_time_v', 'tier': 'quick', 'exclude_obligations': ['process.early_element_not_dropped'], 'role': 'event-time windows: everything fires at FlushAndRestart, nothing carried over'},
             {'engine': 'verus', 'name': 'count_window', 'tier': 'quick', 'role': 'count windows: slots cleared at FlushAndRestart/Terminate'},
             {'engine': 'verus', 'name': 'channel_source', 'tier': 'quick', 'role': 'ChannelSource::next: one FlushAndRestart when the channel closes, then Terminate forever'},
+            {'engine': 'verus', 'name': 'collect_vec', 'tier': 'quick', 'role': 'CollectVecSink::next publishes its result exactly when Terminate arrives (once, complete), nothing before'},
         ],
         'explanation': 'Verus proof of the per-call contract of Start::next (any number of upstream replicas, any batches): FlushAndRestart is returned exactly when every '
                        'upstream FlushAndRestart of the iteration was consumed (and the per-iteration state restarts), Terminate exactly when every upstream Terminate was consumed, '
@@ -104,6 +105,7 @@ PROPS = {
             {'engine': 'verus', 'name': 'start_next', 'tier': 'quick', 'exclude_obligations': ['start.progress_on_replica_end'], 'role': 'old.unread ++ received == taken ++ new.unread; data returned unchanged in pull order'},
             {'engine': 'verus', 'name': 'end_next', 'tier': 'quick', 'role': 'one sender per group: every element is appended to that sender in arrival order'},
             {'engine': 'verus', 'name': 'reorder', 'tier': 'quick', 'role': 'Reorder::next: releases the minimum first, only when covered by a watermark / iteration end, no loss'},
+            {'engine': 'verus', 'name': 'collect_vec', 'tier': 'quick', 'role': 'the sink end of the chain: CollectVecSink::next keeps every data element in arrival order and publishes the whole vector at Terminate'},
         ],
         'explanation': 'order preservation along a single-replica path: Batcher view equation (Verus), Start::next stream equation (nothing lost, duplicated or reordered between link and chain), End::next appends in arrival order.',
         'assumptions': ['reorder() and sinks/sources: see unit list'],
